@@ -97,7 +97,8 @@ func VerifC10_TypingAndEvaluationAreTotal() {
 	var q Query
 	var err error
 	panicked, msg := verifrt.Catch(func() { q, err = Parse(st, p) })
-	verifrt.Assert(!panicked, "C10 typing a grammatical query does not panic: "+p+" ("+msg+")")
+	verifrt.Logf("panic message (if any): %v", msg) // not part of the label: executor and native wording differ
+	verifrt.Assert(!panicked, "C10 typing a grammatical query does not panic: "+p+"")
 	if err != nil {
 		verifrt.Reach("C10 ill-typed query rejected with an error")
 		return
@@ -112,7 +113,8 @@ func VerifC10_TypingAndEvaluationAreTotal() {
 		_ = q.GetSkip()
 		_ = q.GetLimit()
 	})
-	verifrt.Assert(!panicked, "C10 evaluating a typed query does not panic: "+p+" ("+msg+")")
+	verifrt.Logf("panic message (if any): %v", msg) // not part of the label: executor and native wording differ
+	verifrt.Assert(!panicked, "C10 evaluating a typed query does not panic: "+p+"")
 }
 
 // VerifC10_CursorConstructors: the cursor constructors on empty inputs.
@@ -130,7 +132,8 @@ func VerifC10_CursorConstructors() {
 		EmptyCursor.Seek(nil)
 		_ = EmptyCursor.Current()
 	})
-	verifrt.Assert(!panicked, "C10 cursor constructors accept empty inputs ("+msg+")")
+	verifrt.Logf("panic message (if any): %v", msg) // not part of the label: executor and native wording differ
+	verifrt.Assert(!panicked, "C10 cursor constructors accept empty inputs")
 }
 
 // ---- text that is not a sentence: characters the lexer does not recognise ----
@@ -183,6 +186,7 @@ func VerifC10_UnrecognisedCharactersRejected() {
 	m := ms[verifrt.Choose("mutant", len(ms))]
 	var err error
 	panicked, msg := verifrt.Catch(func() { _, err = Parse(st, m) })
-	verifrt.Assert(!panicked, "C10 parsing text with an unrecognised character does not panic ("+msg+")")
+	verifrt.Logf("panic message (if any): %v", msg) // not part of the label: executor and native wording differ
+	verifrt.Assert(!panicked, "C10 parsing text with an unrecognised character does not panic")
 	verifrt.Assert(err != nil, "C10 text containing a character the lexer does not recognise is rejected")
 }
